@@ -64,6 +64,7 @@ func verifHarness_C15_Allocate() {
 	}
 
 	first, n, err := sa.AllocateContiguous(maximum)
+	rt.AssertUnlocked(&sa.lock, "the allocator's lock is released after every call, also when it refuses the request")
 	rt.AssertNoLocksHeld("allocator lock released")
 
 	if err != nil {
@@ -127,6 +128,7 @@ func verifHarness_C15_FreeContiguous() {
 		anyFree = rt.Or(anyFree, w&verifC15_rangeMask(k, start, end) != 0)
 	}
 	panicked := rt.ExpectPanic(func() { sa.FreeContiguous(first, count) })
+	rt.AssertUnlocked(&sa.lock, "the allocator's lock is released after every call, also when it refuses the request")
 	rt.AssertNoLocksHeld("allocator lock released")
 	rt.Assert(panicked == anyFree, "FreeContiguous panics exactly when a sector in the range is already free")
 	if panicked {
@@ -162,6 +164,7 @@ func verifHarness_C15_FreeList() {
 	}
 	before := append([]uint64(nil), sa.freeBitmap...)
 	panicked := rt.ExpectPanic(func() { sa.FreeList(sectors) })
+	rt.AssertUnlocked(&sa.lock, "the allocator's lock is released after every call, also when it refuses the request")
 	rt.AssertNoLocksHeld("allocator lock released")
 	// reference: free one by one
 	ref := append([]uint64(nil), before...)
